@@ -133,10 +133,10 @@ Wanted(L, r, k) ==
 Init == lay \in Layouts /\ rns \in {"", "N", "N::M"} /\ c = <<>>
 Next == /\ c = <<>>
         /\ \E k \in Coords(lay, rns) :
-             /\ Wanted(lay, rns, k)
+             /\ Wanted(lay, rns, k) = TRUE
              /\ LET s == MkSchema(lay, rns, k[1], k[2], k[3], k[4], k[5])
                 IN /\ ScJsonExpressible(s)
-                   /\ (IF ScOk(s) THEN TRUE ELSE k[3] = "attrReq" \/ Tier = "thorough")   \* (IF, not \/: a disjunction would fork the action)
+                   /\ ((ScOk(s) \/ k[3] = "attrReq" \/ Tier = "thorough") = TRUE)   \* (`= TRUE`: a bare disjunction would fork the action)
                    /\ c' = [s |-> s, coord |-> <<lay.x, rns, k[1], k[2], k[3], k[4], k[5]>>]
         /\ UNCHANGED <<lay, rns>>
 
